@@ -58,63 +58,101 @@ def run(ck):
         ck.count()
         events.append(ev)
     ck.sample(events[len(events) // 2])
-    # 3. wire payloads of random updates
+    # 3. wire payloads: what "set" means is decided per field by the update's own type (not None for
+    #    scalars, a non-empty change for lists, a non-empty tuple for flags); every legal value of a
+    #    field is a way of setting it -- every enum member, empty strings, an empty package list, the
+    #    "---" member of RuntimeTesting (an explicit reset)
     r_ = rng(39)
-    nw = ck.pick(300, 3000)
-    scal = {
-        "status": lambda: Status.CONFIRMED, "summary": lambda: r_.choice(["", "s"]), "assigned_to": lambda: "x@y",
-        "whiteboard": lambda: r_.choice(["", "wb"]), "deadline": lambda: datetime.date(2026, 1, 2),
+    statuses_plain = [x for x in Status if x is not Status.RESOLVED]
+    res_plain = [x for x in Resolution if x is not Resolution.DUPLICATE]
+    pools = {
+        "status": statuses_plain,
+        "summary": ["", "s", "0", " "],
+        "assigned_to": ["x@y", ""],
+        "whiteboard": ["", "wb", "0"],
+        "deadline": [datetime.date(2026, 1, 2), datetime.date(1970, 1, 1), datetime.date.min],
+        "comment": [ch.NewComment("c"), ch.NewComment("")],
+        "package_list": [PackageList(""), PackageList("dev-libs/a-1\n")],
+        "runtime_testing_required": list(RuntimeTesting),
+        "flags": [(ch.FlagChange("sanity-check", ch.FlagStatus.GRANTED),), (ch.FlagChange("sanity-check", ch.FlagStatus.CLEARED),),
+                  (ch.FlagChange("a", ch.FlagStatus.DENIED), ch.FlagChange("b", ch.FlagStatus.GRANTED))],
     }
     lists = ["cc", "keywords", "blocks", "depends_on", "see_also", "groups"]
-    base = len(events)
+
+    def list_change(f, k, vals):
+        vals = [v if f not in ("blocks", "depends_on") else i + 1 for i, v in enumerate("abc") if v in vals]
+        if k == "add":
+            return ch.ListChange.adding(*vals)
+        if k == "rem":
+            return ch.ListChange.removing(*vals)
+        if k == "both":
+            return ch.ListChange(add=tuple(vals[:1]), remove=tuple(vals[1:]))
+        if k == "set":
+            return ch.ListChange.setting(*vals)
+        return ch.ListChange()
+
+    def closing(kw, fields, how):
+        """status/resolution/dupe_of come in legal combinations only (BugUpdate.__post_init__)"""
+        if how == "resolved":
+            kw.update(status=Status.RESOLVED, resolution=r_.choice(res_plain))
+            fields |= {"status", "resolution"}
+        elif how == "dupe":
+            kw.update(status=Status.RESOLVED, resolution=Resolution.DUPLICATE, dupe_of=r_.choice([1, 7, 0]))
+            fields |= {"status", "resolution", "dupe_of"}
+        elif how == "verified":
+            kw.update(status=Status.VERIFIED, resolution=r_.choice(res_plain))
+            fields |= {"status", "resolution"}
+
+    plans = []   # (kw, fields, list records)
+    # 3a. every value of every field on its own, and with one other field
+    for f, pool in pools.items():
+        for v in pool:
+            plans.append(({f: v}, {f}, []))
+            g = r_.choice([x for x in pools if x != f])
+            plans.append(({f: v, g: r_.choice(pools[g])}, {f, g}, []))
+    for how in ("resolved", "dupe", "verified"):
+        for _ in range(3):
+            kw, fields = {}, set()
+            closing(kw, fields, how)
+            plans.append((kw, fields, []))
+    for f in lists:
+        for k in ("add", "rem", "both", "set", "empty"):
+            for vals in ("", "a", "ab", "abc"):
+                plans.append(({f: (k, vals)}, None, None))
+    # 3b. random combinations over the same pools
+    nw = ck.pick(300, 3000)
     for n in range(nw):
-        kw, fields, lrec = {}, [], []
-        for f, mk in scal.items():
-            if r_.random() < 0.3:
-                kw[f] = mk()
-                fields.append(f)
-        if r_.random() < 0.2:
-            kw.update(status=Status.RESOLVED, resolution=Resolution.FIXED)
-            fields = sorted(set(fields) | {"status", "resolution"})
+        kw, fields = {}, set()
+        for f, pool in pools.items():
+            if r_.random() < 0.25:
+                kw[f] = r_.choice(pool)
+                fields.add(f)
+        x = r_.random()
+        if x < 0.3:
+            closing(kw, fields, r_.choice(["resolved", "dupe", "verified"]))
         for f in lists:
-            x = r_.random()
-            if x < 0.6:
-                continue
-            vals = [v if f not in ("blocks", "depends_on") else i + 1 for i, v in enumerate("abc") if r_.random() < 0.5]
-            k = r_.choice(["add", "rem", "both", "set", "empty"])
-            if k == "add":
-                c = ch.ListChange.adding(*vals)
-            elif k == "rem":
-                c = ch.ListChange.removing(*vals)
-            elif k == "both":
-                c = ch.ListChange(add=tuple(vals[:1]), remove=tuple(vals[1:]))
-            elif k == "set":
-                c = ch.ListChange.setting(*vals)
-            else:
-                c = ch.ListChange()
-            kw[f] = c
-            pj = _proj(c)
-            pj = {k2: ([str(z) for z in v2] if isinstance(v2, list) else v2) for k2, v2 in pj.items()}
-            if pj["kind"] == "set" or pj["add"] or pj["rem"]:
-                fields.append(f)
-                lrec.append(dict(name=f, change=pj, keys=[]))
-        if r_.random() < 0.2:
-            kw["flags"] = (ch.FlagChange("sanity-check", ch.FlagStatus.GRANTED),)
-            fields.append("flags")
-        if r_.random() < 0.2:
-            kw["comment"] = ch.NewComment("c")
-            fields.append("comment")
-        if r_.random() < 0.2:
-            kw["package_list"] = PackageList("")
-            fields.append("package_list")
-        if r_.random() < 0.2:
-            kw["runtime_testing_required"] = RuntimeTesting.YES if hasattr(RuntimeTesting, "YES") else list(RuntimeTesting)[0]
-            fields.append("runtime_testing_required")
+            if r_.random() < 0.4:
+                kw[f] = (r_.choice(["add", "rem", "both", "set", "empty"]), "".join(v for v in "abc" if r_.random() < 0.5))
+        plans.append((kw, fields, None))
+    base = len(events)
+    for n, (kw, fields, lrec) in enumerate(plans):
+        fields = set(fields or ())
+        lrec = []
+        for f in lists:
+            if f in kw:
+                c = list_change(f, *kw[f])
+                kw[f] = c
+                pj = _proj(c)
+                pj = {k2: ([str(z) for z in v2] if isinstance(v2, list) else v2) for k2, v2 in pj.items()}
+                if pj["kind"] == "set" or pj["add"] or pj["rem"]:
+                    fields.add(f)
+                    lrec.append(dict(name=f, change=pj, keys=[]))
         upd = ch.BugUpdate(**kw)
         wire = upd.to_wire([1])
         for lr in lrec:
             lr["keys"] = sorted(wire.get(lr["name"], {}).keys())
-        events.append(dict(tid=base + n, i=0, ev="wire", fields=sorted(fields), keys=sorted(wire.keys()), lists=lrec))
+        events.append(dict(tid=base + n, i=0, ev="wire", fields=sorted(fields), keys=sorted(wire.keys()), lists=lrec,
+                           values={k: repr(v) for k, v in kw.items()}))
         ck.count()
         ck.nontriv(("wire", tuple(sorted(fields))))
     ck.sample(events[-1])
@@ -125,5 +163,5 @@ def run(ck):
         if e["ev"] == "or":
             detail = dict(case=dict(a=e["a"], b=e["b"]), left=e["a"]["kind"], right=e["b"]["kind"], got=e["res"])
         else:
-            detail = dict(fields=e["fields"], keys=e["keys"], lists=e["lists"])
+            detail = dict(fields=e["fields"], keys=e["keys"], lists=e["lists"], values=e.get("values"))
         ck.violation(v["clause"], detail)
